@@ -10,11 +10,12 @@ access ids, run from the state after `HIstart`, with any ids as arguments (live,
   group (`HIfid2rec` / `HIaid2rec`, fix a10afb7).  The invariants are proved for such a configuration (`current_checked`: the
   current source).  Without the test an id of the other kind is RESOLVED and its object is read as the wrong record type:
   `unchecked_kind_confuses` (this was a real defect: SEGV in `Hendaccess(file id)`, `Hread(file id)`).
-* the attach counter: `attach_eq_live_aids` counts the access records that are attached to the record PLUS the counts that
-  were lost (`leaked`).  A count is lost when `Hclose` of a file id succeeds while an access element started through that id is
-  still open (another id keeps the file open): the later `Hendaccess` fails on the dead file id without `attach--`
-  (`close_under_aid_leaks_attach`, a known finding of /repo; the file can then never be closed again).  Histories without
-  such a close have `leaked = []`.
+* `cfg.closeChecksAids` (generated too): `Hclose` refuses a file id through which access elements are still attached, whatever
+  other ids keep the file open.  With it no attach count is ever lost: `attach_eq_live_aids` (attach = number of attached
+  access records, exactly) and `endaccess_of_live_aid_succeeds`.  Without it (the source before the repair) `Hclose` of such
+  an id succeeds while another id keeps the file open, the later `Hendaccess` fails on the dead file id without `attach--` and
+  the file can never be closed again: `close_under_aid_leaks_attach`; `attach_eq_live_aids_plus_leaked` is the statement that
+  holds for both configurations.
 * atom ids are not reissued as long as fewer than 2^28 file ids were handed out (`H4.Props.C13`: `make_atom_wraps`); the attach
   theorem carries that bound, the others do not need it. -/
 namespace H4.Props.C13Files
@@ -22,7 +23,7 @@ open H4.Handles H4.Gen.Atom H4.Gen.Hdf H4.Gen.Macros
 open H4.Atom (group_MAKE_ATOM Info)
 
 /-- the current source checks the kind of every id at the H entry points -/
-theorem current_checked : Cfg.current.kindChecked = true := by decide
+theorem current_checked : Cfg.current.kindChecked = true ∧ Cfg.current.closeChecksAids = true := by decide
 
 /-- state after a history -/
 abbrev after (cfg : Cfg) (ops : List Op) : World := run cfg World.init ops
@@ -50,13 +51,62 @@ theorem refcount_eq_live_fids (cfg : Cfg) (hk : cfg.kindChecked = true) (ops : L
     ∀ e ∈ (after cfg ops).frecs, e.2.refcount = (liveFids (after cfg ops)).countP (fun i => i.obj == e.1) ∧ 1 ≤ e.2.refcount :=
   (reachable_wf cfg hk ops).refc
 
-/-- `attach_eq_live_aids`: the attach counter of every file record = the number of access records attached to it + the number
-    of counts lost by failed `Hendaccess` calls; every access record has exactly one live access id. -/
-theorem attach_eq_live_aids (cfg : Cfg) (hk : cfg.kindChecked = true) (ops : List Op) (hn : ops.length < 2 ^ 28) :
+/-- `attach_eq_live_aids_plus_leaked` (any configuration): attach = number of access records attached to the record + number of
+    counts lost by failed `Hendaccess` calls; every access record has exactly one live access id. -/
+theorem attach_eq_live_aids_plus_leaked (cfg : Cfg) (hk : cfg.kindChecked = true) (ops : List Op) (hn : ops.length < 2 ^ 28) :
     (∀ e ∈ (after cfg ops).frecs,
         e.2.attach = (after cfg ops).arecs.countP (fun a => a.2.file == e.1) + (after cfg ops).leaked.countP (fun x => x == e.1)) ∧
     (∀ a ∈ (after cfg ops).arecs, (liveAids (after cfg ops)).countP (fun i => i.obj == a.1) = 1) :=
   ⟨(run_wfa cfg hk World.init ops init_wf init_wfa (by simpa [World.init] using hn)).att, (reachable_wf cfg hk ops).aone⟩
+
+/-- `no_attach_lost`: with the per-id test of `Hclose` nothing is ever leaked, and every access record was started through a
+    file id that is still live -/
+theorem no_attach_lost (cfg : Cfg) (hk : cfg.kindChecked = true) (hc : cfg.closeChecksAids = true) (ops : List Op)
+    (hn : ops.length < 2 ^ 28) :
+    (after cfg ops).leaked = [] ∧ ∀ a ∈ (after cfg ops).arecs, ∃ i ∈ liveFids (after cfg ops), i.id = a.2.fileId :=
+  let h := run_noOrphan cfg hk hc World.init ops init_wf init_wfa init_noOrphan (by simpa [World.init] using hn)
+  ⟨h.noleak, h.alive⟩
+
+/-- `attach_eq_live_aids`: the attach counter of every file record is EXACTLY the number of access records attached to it, and
+    every access record has exactly one live access id. -/
+theorem attach_eq_live_aids (cfg : Cfg) (hk : cfg.kindChecked = true) (hc : cfg.closeChecksAids = true) (ops : List Op)
+    (hn : ops.length < 2 ^ 28) :
+    (∀ e ∈ (after cfg ops).frecs, e.2.attach = (after cfg ops).arecs.countP (fun a => a.2.file == e.1)) ∧
+    (∀ a ∈ (after cfg ops).arecs, (liveAids (after cfg ops)).countP (fun i => i.obj == a.1) = 1) := by
+  have h := attach_eq_live_aids_plus_leaked cfg hk ops hn
+  have hl := (no_attach_lost cfg hk hc ops hn).1
+  refine ⟨fun e he => ?_, h.2⟩
+  have := h.1 e he
+  rw [hl] at this
+  simpa using this
+
+/-- `endaccess_of_live_aid_succeeds`: `Hendaccess` of an id that designates an access record never takes the failing branch:
+    it returns SUCCEED (the repair makes the failure `BADFREC(file_rec)` unreachable) -/
+theorem endaccess_of_live_aid_succeeds (cfg : Cfg) (hk : cfg.kindChecked = true) (hc : cfg.closeChecksAids = true) (ops : List Op)
+    (hn : ops.length < 2 ^ 28) (id q : Nat) (a : ARec) (hl : lookA cfg (after cfg ops) id = .acc q a) :
+    (step cfg (after cfg ops) (.endaccess id)).2 = .ok := by
+  have hw := reachable_wf cfg hk ops
+  have ha := run_wfa cfg hk World.init ops init_wf init_wfa (by simpa [World.init] using hn)
+  have hno := run_noOrphan cfg hk hc World.init ops init_wf init_wfa init_noOrphan (by simpa [World.init] using hn)
+  obtain ⟨hg, ⟨e0, hfind, hobj⟩, hget⟩ := lookA_acc hk hl
+  obtain ⟨r1, r2, r3, r4, r5, r6⟩ := aRem_aid (after cfg ops) id hg
+  have hmem := getA_mem hget
+  have hmid := endAccess_mid_wf (after cfg ops) id q a hw hg e0 hfind hobj hget
+  have hmidN : NoOrphan (delA (aRem (after cfg ops) id) q) := by
+    refine ⟨?_, by simp only [delA_leaked, r6]; exact hno.noleak, ?_, by simp only [delA_nobj, r5]; exact hno.npos⟩
+    · intro b hb
+      have hb' := (mem_delA.mp hb).1
+      rw [r4] at hb'
+      simp only [delA_fidg, r2]
+      exact hno.alive b hb'
+    · intro e he; simp only [delA_frecs, r3] at he; exact hno.fpos e he
+  obtain ⟨i, hi, hid⟩ := hno.alive (q, a) hmem
+  obtain ⟨k, _, hk2⟩ := ha.issued (q, a) hmem
+  have hgF : ATOM_TO_GROUP a.fileId = FIDGROUP := by
+    simp only [] at hk2; rw [hk2]; exact group_MAKE_ATOM FIDGROUP k (by decide)
+  have hi' : i ∈ (delA (aRem (after cfg ops) id) q).fidg.live := by simp only [delA_fidg, r2]; exact hi
+  obtain ⟨p, r, hlf⟩ := lookF_of_live (cfg := cfg) hmid hmidN hgF hi' hid
+  simp only [step, endAccess, hl, hlf]
 
 /-- every live access id designates an access record, every live file id a file record -/
 theorem live_ids_designate (cfg : Cfg) (hk : cfg.kindChecked = true) (ops : List Op) :
@@ -78,8 +128,9 @@ theorem nextread_keeps_counters (cfg : Cfg) (w : World) (id : Nat) (found : Bool
 theorem close_with_aids_fails_and_preserves (cfg : Cfg) (w : World) (id p : Nat) (r : FRec)
     (hl : lookF cfg w id = .file p r) (h1 : r.refcount = 1) (ha : 0 < r.attach) :
     hclose cfg w id = (w, .fail) := by
-  unfold hclose
-  simp [hl, h1, ha]
+  unfold hclose hcloseRec
+  simp only [hl, h1, ha]
+  split <;> simp
 
 /-- … and, with the invariant, this is exactly the case "last id of the file, some access element still open" -/
 theorem close_with_aids_fails_reachable (cfg : Cfg) (hk : cfg.kindChecked = true) (ops : List Op) (hn : ops.length < 2 ^ 28)
@@ -90,7 +141,7 @@ theorem close_with_aids_fails_reachable (cfg : Cfg) (hk : cfg.kindChecked = true
   obtain ⟨_, _, hget, _⟩ := lookF_file hk hl
   have hmem := getF_mem hget
   have h1 := (refcount_eq_live_fids cfg hk ops (p, r) hmem).1
-  have h2 := (attach_eq_live_aids cfg hk ops hn).1 (p, r) hmem
+  have h2 := (attach_eq_live_aids_plus_leaked cfg hk ops hn).1 (p, r) hmem
   simp only [] at h1 h2
   exact close_with_aids_fails_and_preserves cfg _ id p r hl (by rw [h1]; exact hone) (by omega)
 
@@ -151,27 +202,34 @@ def fid (k : Nat) : Nat := MAKE_ATOM FIDGROUP k
 def aid (k : Nat) : Nat := MAKE_ATOM AIDGROUP k
 
 /-- nested opens of one path, an access element, close refused while it is attached, then full teardown -/
-example : results ⟨true⟩ World.init [.hopen 7 DFACC_READ true, .hopen 7 DFACC_RDWR true, .startaccess (fid 1) true true,
+example : results ⟨true, true⟩ World.init [.hopen 7 DFACC_READ true, .hopen 7 DFACC_RDWR true, .startaccess (fid 1) true true,
       .hclose (fid 0), .hclose (fid 1), .useaid (aid 0), .endaccess (aid 0), .endaccess (aid 0), .hclose (fid 1), .usefid (fid 1),
       .hopen 7 DFACC_READ true]
     = [.id (fid 0), .id (fid 1), .id (aid 0), .ok, .fail, .ok, .ok, .fail, .ok, .fail, .id (fid 2)] := by decide
 
-/-- `close_under_aid_leaks_attach` (KNOWN FINDING of /repo, engine key `ids-close-under-aid-leaks-attach`): two ids of one
-    file; an access element is started through the first; `Hclose` of the FIRST id succeeds (the second keeps the file open);
-    the later `Hendaccess` FAILS (its file id is dead) and does not decrement `attach`; the last `Hclose` then fails for ever. -/
+/-- `close_under_aid_refused`: two ids of one file; an access element is started through the first; `Hclose` of the FIRST id is
+    REFUSED (the element must be ended first) and everything stays usable; after `Hendaccess` both ids close. -/
+theorem close_under_aid_refused :
+    results ⟨true, true⟩ World.init [.hopen 7 DFACC_READ true, .hopen 7 DFACC_READ true, .startaccess (fid 0) true false, .hclose (fid 0),
+      .useaid (aid 0), .endaccess (aid 0), .hclose (fid 0), .hclose (fid 1)]
+      = [.id (fid 0), .id (fid 1), .id (aid 0), .fail, .ok, .ok, .ok, .ok] := by decide
+
+/-- `close_under_aid_leaks_attach` (the source BEFORE the repair, `closeChecksAids = false`; engine key
+    `ids-close-under-aid-leaks-attach`): `Hclose` of the first id succeeds (the second keeps the file open); the later
+    `Hendaccess` FAILS (its file id is dead) and does not decrement `attach`; the last `Hclose` then fails for ever. -/
 theorem close_under_aid_leaks_attach :
-    results ⟨true⟩ World.init [.hopen 7 DFACC_READ true, .hopen 7 DFACC_READ true, .startaccess (fid 0) true false, .hclose (fid 0),
+    results ⟨true, false⟩ World.init [.hopen 7 DFACC_READ true, .hopen 7 DFACC_READ true, .startaccess (fid 0) true false, .hclose (fid 0),
       .endaccess (aid 0), .hclose (fid 1), .hclose (fid 1)]
       = [.id (fid 0), .id (fid 1), .id (aid 0), .ok, .fail, .fail, .fail] ∧
-    (run ⟨true⟩ World.init [.hopen 7 DFACC_READ true, .hopen 7 DFACC_READ true, .startaccess (fid 0) true false, .hclose (fid 0),
+    (run ⟨true, false⟩ World.init [.hopen 7 DFACC_READ true, .hopen 7 DFACC_READ true, .startaccess (fid 0) true false, .hclose (fid 0),
       .endaccess (aid 0)]).leaked = [1] := by decide
 
 /-- without the kind test an access id given to `Hclose` (or a file id given to `Hendaccess`) is resolved and its object would be
     read as the wrong record type; with the test both calls FAIL -/
 theorem unchecked_kind_confuses :
-    results ⟨false⟩ World.init [.hopen 7 DFACC_READ true, .startaccess (fid 0) true false, .hclose (aid 0), .endaccess (fid 0)]
+    results ⟨false, true⟩ World.init [.hopen 7 DFACC_READ true, .startaccess (fid 0) true false, .hclose (aid 0), .endaccess (fid 0)]
       = [.id (fid 0), .id (aid 0), .confused, .confused] ∧
-    results ⟨true⟩ World.init [.hopen 7 DFACC_READ true, .startaccess (fid 0) true false, .hclose (aid 0), .endaccess (fid 0)]
+    results ⟨true, true⟩ World.init [.hopen 7 DFACC_READ true, .startaccess (fid 0) true false, .hclose (aid 0), .endaccess (fid 0)]
       = [.id (fid 0), .id (aid 0), .fail, .fail] := by decide
 
 /-! ## SD ids: id = slot << 20 | kind << 16 | index, on the expressions extracted from `mfsd.c` (`H4.Gen.Src`) -/
